@@ -13,7 +13,7 @@ from vf import core
 PROPERTY = 'C07'
 LEVEL = 'exploration'
 RULE = ('(a) token/byte-level mutations (delete, duplicate, swap, insert a token of the grammar alphabet, re-indent a line, unbalance a bracket, truncate) of generated (G2) sources and real (G3) files, '
-	'(b) token soups over the terminal alphabet of grammar.lark, (c) well-formed but ill-typed programs (G2 without the node-model restrictions, undefined names/attributes, wrong arity ...); '
+	'(b) token soups over the terminal alphabet of grammar.lark, (b2) very deep inputs (20-1000 levels of brackets, calls, blocks, prefix operators, attribute/subscript chains; flat inputs of the same size as controls), (c) well-formed but ill-typed programs (G2 without the node-model restrictions, undefined names/attributes, wrong arity ...); '
 	'each fed through both entry points (in-memory module, on-disk module in a scratch project) and the stages Modules.load -> ITranspiler.transpile; outcome must be ok or Errors.Error, '
 	'text rejected by CPython and by lark must be Errors.Syntax on both entry points, str(ErrorRender(e)) must return; plus the Interactive loop with a scripted tty (bad, bad, good). '
 	'Failures are bucketed by (exception type, innermost rogw frame). non-trivial = the input reaches beyond the lexer (parses and fails later, or the parse error is past the first statement); distinct by (outcome bucket, source hash)')
@@ -72,10 +72,51 @@ def mutate(rnd, src: str) -> tuple[str, str]:
 	return ''.join(toks), kind
 
 
+# very deep inputs: n levels of brackets, calls, blocks, unary operators or postfix chains (and, as controls, n flat items)
+DEEP_SHAPES = {
+	'parens': lambda n: 'x = ' + '(' * n + '1' + ')' * n + '\n',
+	'lists': lambda n: 'x = ' + '[' * n + '1' + ']' * n + '\n',
+	'calls': lambda n: 'x = ' + 'f(' * n + '1' + ')' * n + '\n',
+	'attrs': lambda n: 'x = a' + '.b' * n + '\n',
+	'index': lambda n: 'x = a' + '[0]' * n + '\n',
+	'unary': lambda n: 'x = ' + '-' * n + '1\n',
+	'not': lambda n: 'x = ' + 'not ' * n + 'a\n',
+	'ifs': lambda n: ''.join('\t' * i + 'if x:\n' for i in range(n)) + '\t' * n + 'pass\n',
+	'flat-sum': lambda n: 'x = ' + ' + '.join(['1'] * n) + '\n',
+	'flat-elifs': lambda n: 'if x:\n\tpass\n' + 'elif x:\n\tpass\n' * n,
+	'flat-statements': lambda n: 'x = 1\n' * n,
+}
+DEEP_LISTED_FROM = 150   # C07-K-deep-nesting: from here on a RecursionError of the unchanged code is the listed finding
+
+
+def nesting_measure(src: str) -> int:
+	"""Levels of nesting of a text: bracket depth, block depth, longest run of prefix operators, longest postfix chain."""
+	import re
+	depth = deepest = 0
+	for ch in src:
+		if ch in '([{':
+			depth += 1
+			deepest = max(deepest, depth)
+		elif ch in ')]}':
+			depth = max(0, depth - 1)
+	indent = max((len(line) - len(line.lstrip('\t ')) for line in src.split('\n')), default=0)
+	prefix = max((len(re.findall(r'not\b|[-+~]', m.group(0))) for m in re.finditer(r'(?:(?:not\b|[-+~])\s*)+', src)), default=0)
+	postfix = max((len(re.findall(r'\.\s*\w+|\[[^\[\]]*\]|\([^()]*\)', m.group(0))) for m in re.finditer(r'(?:\.\s*\w+|\[[^\[\]]*\]|\([^()]*\))+', src)), default=0)
+	return max(deepest, indent, prefix, postfix)
+
+
+core.CASE_PREDICATES['C07-K-deep-nesting'] = lambda case: nesting_measure(case['source']) >= DEEP_LISTED_FROM
+
+
 @st.composite
-def cases(draw):
+def cases(draw, exclude: frozenset = frozenset()):
 	from vf import syngen
 	rnd = draw(st.randoms(use_true_random=False))
+	if rnd.randint(1, 40) <= 3:  # (floats drawn through Hypothesis are biased towards 0: an integer draw keeps the share at a few per cent)
+		shape = rnd.choice(sorted(DEEP_SHAPES))
+		top = 120 if 'deep-nesting' in exclude and not shape.startswith('flat') else 1000   # the listed finding is kept out by construction
+		n = int(20 * (top / 20) ** rnd.random())
+		return {'source': DEEP_SHAPES[shape](n), 'kind': f'deep:{shape}'}
 	c = rnd.randint(0, 9)
 	if c <= 5:
 		src, _ = syngen.gen_module(rnd, rnd.choice(['mixed', 'mixed', 'expr']), friendly=rnd.random() < 0.5)
@@ -292,7 +333,7 @@ def shard(ctx: core.Ctx) -> None:
 			body({'source': m, 'kind': 'g3-mutant:' + kind})
 		if ctx.out_of_time():
 			break
-	core.drive(ctx, cases(), body, total=ctx.budget['cases'], chunk=50)
+	core.drive(ctx, cases(frozenset(ctx.excluded)), body, total=ctx.budget['cases'], chunk=50)
 
 
 def replay(case: dict) -> list[tuple[str, str]]:
